@@ -83,6 +83,63 @@ theorem C08_len_set_inv (pick : Entries → Nat) (es : Entries) (k v : GoVal) (h
   have h2 := C08_len_set pick es k v
   omega
 
+/-- Number of `Set` operations in a history. -/
+def setCount : List DictOp → Nat
+  | [] => 0
+  | .set _ _ :: ops => setCount ops + 1
+  | _ :: ops => setCount ops
+
+theorem C08_len_step (pick : Entries → Nat) (es : Entries) (op : DictOp) :
+    (dictStep pick es op).length ≤ es.length + setCount [op] := by
+  cases op with
+  | get k => simp [dictStep, setCount]
+  | del k => have := C08_len_del pick es k; simp only [dictStep, setCount]; omega
+  | set k v => have := C08_len_set pick es k v; simp only [dictStep, setCount]; omega
+
+/-- **C08 (Len, histories).** After any history on an empty Dict — for every way the table resolves
+    its choices — `Len` is at most the number of `Set` operations performed: no operation ever
+    creates an entry that was not set, and `Del` / `Get` create none. -/
+theorem C08_len_bound (pick : Entries → Nat) (ops : List DictOp) :
+    (ops.foldl (dictStep pick) []).length ≤ setCount ops := by
+  suffices ∀ es : Entries, (ops.foldl (dictStep pick) es).length ≤ es.length + setCount ops by
+    simpa using this []
+  induction ops with
+  | nil => intro es; simp [setCount]
+  | cons op ops ih =>
+    intro es
+    have h1 := ih (dictStep pick es op)
+    have h2 := C08_len_step pick es op
+    have h3 : setCount (op :: ops) = setCount [op] + setCount ops := by
+      cases op <;> simp [setCount] <;> omega
+    simp only [List.foldl_cons]
+    omega
+
+/-- Every stored entry was put there by a `Set` of the history (keys and values are never invented). -/
+theorem C08_entries_from_sets (pick : Entries → Nat) (ops : List DictOp) (e : GoVal × GoVal)
+    (he : e ∈ ops.foldl (dictStep pick) []) : DictOp.set e.1 e.2 ∈ ops := by
+  suffices ∀ es : Entries, e ∈ ops.foldl (dictStep pick) es → e ∈ es ∨ DictOp.set e.1 e.2 ∈ ops by
+    rcases this [] he with h | h
+    · simp at h
+    · exact h
+  clear he
+  induction ops with
+  | nil => intro es h; left; simpa using h
+  | cons op ops ih =>
+    intro es h
+    simp only [List.foldl_cons] at h
+    rcases ih _ h with h | h
+    · cases op with
+      | get k => left; simpa [dictStep] using h
+      | del k =>
+        simp only [dictStep, C08_del, List.mem_filter] at h
+        left; exact h.1
+      | set k v =>
+        simp only [dictStep, C08_set, dictSetSpec, List.mem_append, List.mem_filter, List.mem_singleton] at h
+        rcases h with h | h
+        · left; exact h.1
+        · right; subst h; simp
+    · right; exact List.mem_cons_of_mem _ h
+
 /-- Non-vacuity: an int key set beside a string key — the string query's candidates are untouched. -/
 example : matching (dictSetSpec [(.str [97], .int 1)] (.int 5) (.int 2)) (.str [97]) =
     matching [(.str [97], .int 1)] (.str [97]) := by
